@@ -19,6 +19,9 @@ type Case struct {
 	// the request: the registered set is Set, the tree went through an insertion and a removal.
 	Extra      string `json:"extra,omitempty"`
 	ExtraFirst bool   `json:"extra_first,omitempty"`
+	// Aborted: Extra was registered inside a write transaction that was aborted (instead of registered
+	// and deleted)
+	Aborted bool `json:"aborted,omitempty"`
 }
 
 func buildAfterDelete(set []rsx.RouteSpec, extra string, first bool) (*rsx.Env, error) {
@@ -311,10 +314,73 @@ func runAfterDelete(c *mc.Ctx, r *mc.Result) {
 	})
 }
 
+// runAfterAbort: sets of 2..3 routes whose first bytes differ (so that the method root has 2..3
+// children, spare capacity included), then one more pattern registered inside a write transaction
+// that is aborted; the hostname obligations must hold as if the transaction had never existed.
+func runAfterAbort(c *mc.Ctx, r *mc.Result) {
+	base := []string{"/", "/a", "a.b/", "b.a.b/a", "1.{t}/", "{h}.b/", "a.{t}/a"}
+	extras := patterns()
+	hosts := append(allHosts(3), structured...)
+	paths := rsx.GenPaths([]string{"a", "b"}, 2)
+	r.Bounds["pool"] = fmt.Sprintf("subsets of 2..3 of %v x %d extra patterns registered in an aborted write transaction, all hosts of length<=3 over {a,b,1,.} + %d structured, %d paths", base, len(extras), len(structured), len(paths))
+	n := 0
+	rsx.Subsets(len(base), 3, func(i int, idx []int) {
+		if len(idx) < 2 {
+			return
+		}
+		set := make([]rsx.RouteSpec, 0, len(idx))
+		in := map[string]bool{}
+		for _, j := range idx {
+			set = append(set, rsx.RouteSpec{Method: "GET", Pattern: base[j]})
+			in[base[j]] = true
+		}
+		for _, extra := range extras {
+			n++
+			if in[extra] || !c.Mine(n) {
+				continue
+			}
+			e, err := rsx.BuildAfterAbort(set, "GET", extra, rsx.Profile{})
+			if err != nil {
+				r.Count("histories_rejected_by_router", 1)
+				continue
+			}
+			r.States++
+			for _, h := range hosts {
+				for _, p := range paths {
+					rq := rsx.Req{Method: "GET", Host: h, Path: p}
+					abst, nontriv, class, msg := eval(e, rq)
+					r.Evaluations++
+					r.Transitions++
+					if abst {
+						r.Abstained++
+					}
+					if nontriv {
+						r.DistinctNontrivial++
+					}
+					if class != "" {
+						r.Violate("hosts-after-abort", class, fmt.Sprintf("[after an aborted transaction that registered %s] ", extra)+msg, Case{Set: set, Req: rq, Extra: extra, Aborted: true})
+					}
+				}
+			}
+		}
+	})
+}
+
 func replay(c *mc.Ctx, raw json.RawMessage) string {
 	var cs Case
 	if err := json.Unmarshal(raw, &cs); err != nil {
 		return "bad case: " + err.Error()
+	}
+	if cs.Aborted {
+		e, err := rsx.BuildAfterAbort(cs.Set, "GET", cs.Extra, rsx.Profile{})
+		if err != nil {
+			return ""
+		}
+		_, _, _, msg := eval(e, cs.Req)
+		if msg != "" {
+			msg = fmt.Sprintf("[after an aborted transaction that registered %s] ", cs.Extra) + msg
+		}
+		return msg
 	}
 	if cs.Extra != "" {
 		e, err := buildAfterDelete(cs.Set, cs.Extra, cs.ExtraFirst)
@@ -339,12 +405,12 @@ func init() {
 	mc.Register(&mc.Check{
 		ID:    "C09",
 		Level: "exploration",
-		Rule: "every subset (size<=K) of a 35-pattern pool mixing hostname and path-only patterns x every Host string up to a length over {a,b,1,.} plus structured variants (port, trailing dot, IPv4/IPv6 literals, empty, garbage) x paths of depth<=2; the same on routers that additionally went through the registration and deletion of one more pattern (part hosts-after-delete); " +
+		Rule: "every subset (size<=K) of a 35-pattern pool mixing hostname and path-only patterns x every Host string up to a length over {a,b,1,.} plus structured variants (port, trailing dot, IPv4/IPv6 literals, empty, garbage) x paths of depth<=2; the same on routers that additionally went through the registration and deletion of one more pattern (part hosts-after-delete) or through an aborted transaction that registered one more pattern (part hosts-after-abort); " +
 			"non-trivial = the method has hostname routes and the host equals a hostname pattern or contains its distinguishing label",
 		Assumptions: []string{
 			"host normalisation reference: net.SplitHostPort when a ':' is present (unchanged on error), then one trailing dot removed",
 			"obligations are host-only: whole-host equality of any selected hostname route, value round trip, exact path-only answer when no hostname route can be involved, reference direct match under a matching host (direct matching itself is validated by C01)",
 		},
-		Parts: []mc.Part{{Name: "hosts", Run: run, Replay: replay}, {Name: "hosts-after-delete", Run: runAfterDelete, Replay: replay}},
+		Parts: []mc.Part{{Name: "hosts", Run: run, Replay: replay}, {Name: "hosts-after-delete", Run: runAfterDelete, Replay: replay}, {Name: "hosts-after-abort", Run: runAfterAbort, Replay: replay}},
 	})
 }
